@@ -628,10 +628,21 @@ def run(ctx):
             ctx.add_violations(viol)
     else:
         ctx.assume("loopback sockets unavailable: dispatcher conformance scripts skipped")
+    # interleaving part: an application thread disconnects while the loop thread keeps running (vf/props/c16_race.py)
+    from vf.props import c16_race
+    from vf.explore import dfs
+    rbound = 1 if ctx.quick else 2
+    rst = dfs.explore(ctx, c16_race.MOD, "run_race", c16_race.cases_for(ctx.tier), rbound, cap=None, chunksize=2, free_bound=2)
+    ctx.note("disconnect race: preemption bound %d, free bound 2: executions=%d outcomes=%d" % (rbound, rst.executions, len(rst.observations)))
+    ctx.coverage.update({
+        "race_executions": rst.executions,
+        "race_preemption_bound": rbound,
+        "race_distinct_outcomes": len(rst.observations),
+    })
     ctx.coverage.update({
         "states": states,
         "transitions": transitions,
-        "traces_validated_against_impl": transitions + len(jobs),
+        "traces_validated_against_impl": transitions + len(jobs) + rst.executions,
         "max_depth": maxd + 1,
         "dispatcher_conformance_scripts": conf_scripts,
         "exhaustive": True,
@@ -645,6 +656,13 @@ def run(ctx):
 
 
 def replay(ctx, case):
+    if "burst" in case and "history" not in case:
+        from vf.props import c16_race
+        from vf.explore import dfs
+        case = dict(case)
+        pf = dfs.schedule_from_case(case)
+        case.pop("schedule", None)
+        return c16_race.run_race(case, pf)[1]
     if "dispatcher_script" in case:
         from vf.harness import netconf
         return netconf.run_one((tuple(case["dispatcher_script"]), case.get("dispatcher", "asyncore")))
